@@ -441,4 +441,170 @@ theorem sampleGoals_inv (cfg : Cfg S D) (starts : Array S) (st : St S D) (h : St
     · exact ⟨h.tS, hG, h.approx, h.exact, h.status⟩
   · exact h
 
+theorem rootsValid_spec (cfg : Cfg S D) (tS tG : Array (Node S)) (i j : Nat) (sm gm : Node S)
+    (hs : tS[i]? = some sm) (hg : tG[j]? = some gm) (h : rootsValid cfg tS tG i j = true) :
+    cfg.pairValid sm.root gm.root = true := by
+  unfold rootsValid at h
+  rw [hs, hg] at h
+  exact h
+
+theorem extend_inv (cfg : Cfg S D) (starts : Array S) (st : St S D) (side : Bool) (u : S)
+    (h : StInv cfg starts st) : StInv cfg starts (extend cfg st side u) := by
+  cases side with
+  | true =>
+    unfold extend
+    simp only [if_true, Bool.not_true]
+    obtain ⟨g1, g2, g3⟩ := grow_spec cfg (ValidStart cfg starts) true st.tStart u u 0 h.tS
+    generalize growTree cfg st.tStart true u u 0 = g at g1 g2 g3
+    have happ : ∀ i, st.approxsol = some i → ∃ nd, g.tree[i]? = some nd ∧ st.approxdif = cfg.goalDist nd.state := by
+      intro i hi
+      obtain ⟨nd, a, b⟩ := h.approx i hi
+      exact ⟨nd, g2 i nd a, b⟩
+    split
+    · exact ⟨g1, h.tG, happ, h.exact, h.status⟩
+    · next hnt =>
+      obtain ⟨nlg, hg1, hg2⟩ := g3 hnt
+      generalize hrs : (if g.gs = Grow.reached then u else g.xstate) = rstate at hg2
+      obtain ⟨c1, c2, c3⟩ := grow_spec cfg (ValidGoal cfg) false st.tGoal rstate g.xstate g.xmotion h.tG
+      generalize hc0 : growTree cfg st.tGoal false rstate g.xstate g.xmotion = c0 at c1 c2 c3
+      obtain ⟨k1, k2, k3⟩ := connect_spec cfg (ValidGoal cfg) false rstate cfg.connectFuel c0 st.tGoal c1 c2 c3
+      have hnadv : c0.gs = Grow.trapped → connectLoop cfg false rstate cfg.connectFuel c0 = c0 := by
+        intro ht
+        exact connectLoop_not_advanced cfg false rstate _ c0 (by rw [ht]; simp)
+      generalize hc : connectLoop cfg false rstate cfg.connectFuel c0 = c at k1 k2 k3 hnadv
+      by_cases hc0t : c0.gs = Grow.trapped
+      · have hct : c.gs = Grow.trapped := by rw [hnadv hc0t]; exact hc0t
+        have hd : decide (c.gs = Grow.reached) = false := by simp [hct]
+        simp only [if_pos hc0t, if_true, hd, Bool.false_and, Bool.false_eq_true, if_false]
+        split
+        · exact ⟨g1, k1, happ, h.exact, h.status⟩
+        · next xm hxm =>
+          split
+          · refine ⟨g1, k1, ?_, h.exact, h.status⟩
+            intro i hi
+            simp only [Option.some.injEq] at hi
+            subst hi
+            exact ⟨xm, hxm, rfl⟩
+          · exact ⟨g1, k1, happ, h.exact, h.status⟩
+      · simp only [if_neg hc0t, Bool.false_eq_true, if_false]
+        split
+        · next hreach =>
+          simp only [Bool.and_eq_true, decide_eq_true_eq] at hreach
+          obtain ⟨hr1, hr2⟩ := hreach
+          obtain ⟨nlc, hk1, hk2⟩ := k3 hr1
+          have hpair := rootsValid_spec cfg g.tree c.tree g.xmotion c.xmotion nlg nlc hg1 hk1 hr2
+          refine ⟨g1, k1, happ, ?_, h.status⟩
+          intro path hp
+          simp only [Option.some.injEq] at hp
+          subst hp
+          exact exact_path cfg starts g.tree c.tree g1 k1 g.xmotion c.xmotion nlg nlc hg1 hk1 (by rw [hg2, hk2]) hpair
+        · exact ⟨g1, k1, happ, h.exact, h.status⟩
+  | false =>
+    unfold extend
+    simp only [Bool.false_eq_true, if_false, Bool.not_false]
+    obtain ⟨g1, g2, g3⟩ := grow_spec cfg (ValidGoal cfg) false st.tGoal u u 0 h.tG
+    generalize growTree cfg st.tGoal false u u 0 = g at g1 g2 g3
+    split
+    · exact ⟨h.tS, g1, h.approx, h.exact, h.status⟩
+    · next hnt =>
+      obtain ⟨nlg, hg1, hg2⟩ := g3 hnt
+      generalize hrs : (if g.gs = Grow.reached then u else g.xstate) = rstate at hg2
+      obtain ⟨c1, c2, c3⟩ := grow_spec cfg (ValidStart cfg starts) true st.tStart rstate g.xstate g.xmotion h.tS
+      generalize hc0 : growTree cfg st.tStart true rstate g.xstate g.xmotion = c0 at c1 c2 c3
+      obtain ⟨k1, k2, k3⟩ := connect_spec cfg (ValidStart cfg starts) true rstate cfg.connectFuel c0 st.tStart c1 c2 c3
+      have hnadv : c0.gs = Grow.trapped → connectLoop cfg true rstate cfg.connectFuel c0 = c0 := by
+        intro ht
+        exact connectLoop_not_advanced cfg true rstate _ c0 (by rw [ht]; simp)
+      generalize hc : connectLoop cfg true rstate cfg.connectFuel c0 = c at k1 k2 k3 hnadv
+      have happ : ∀ i, st.approxsol = some i → ∃ nd, c.tree[i]? = some nd ∧ st.approxdif = cfg.goalDist nd.state := by
+        intro i hi
+        obtain ⟨nd, a, b⟩ := h.approx i hi
+        exact ⟨nd, k2 i nd a, b⟩
+      by_cases hc0t : c0.gs = Grow.trapped
+      · have hct : c.gs = Grow.trapped := by rw [hnadv hc0t]; exact hc0t
+        have hd : decide (c.gs = Grow.reached) = false := by simp [hct]
+        simp only [if_pos hc0t, hd, Bool.false_and, Bool.false_eq_true, if_false]
+        exact ⟨k1, g1, happ, h.exact, h.status⟩
+      · simp only [if_neg hc0t, if_true]
+        split
+        · next hreach =>
+          simp only [Bool.and_eq_true, decide_eq_true_eq] at hreach
+          obtain ⟨hr1, hr2⟩ := hreach
+          obtain ⟨nlc, hk1, hk2⟩ := k3 hr1
+          have hpair := rootsValid_spec cfg c.tree g.tree c.xmotion g.xmotion nlc nlg hk1 hg1 hr2
+          refine ⟨k1, g1, happ, ?_, h.status⟩
+          intro path hp
+          simp only [Option.some.injEq] at hp
+          subst hp
+          exact exact_path cfg starts c.tree g.tree k1 g1 c.xmotion g.xmotion nlc nlg hk1 hg1 (by rw [hg2, hk2]) hpair
+        · split
+          · exact ⟨k1, g1, happ, h.exact, h.status⟩
+          · next xm hxm =>
+            split
+            · refine ⟨k1, g1, ?_, h.exact, h.status⟩
+              intro i hi
+              simp only [Option.some.injEq] at hi
+              subst hi
+              exact ⟨xm, hxm, rfl⟩
+            · exact ⟨k1, g1, happ, h.exact, h.status⟩
+
+theorem pre_inv (cfg : Cfg S D) (starts : Array S) (st st0 : St S D) (side : Bool)
+    (h : StInv cfg starts st) (hp : pre cfg st = some (st0, side)) : StInv cfg starts st0 := by
+  unfold pre at hp
+  split at hp
+  · simp at hp
+  · simp only [Option.some.injEq, Prod.mk.injEq] at hp
+    obtain ⟨rfl, _⟩ := hp
+    apply sampleGoals_inv
+    exact ⟨h.tS, h.tG, h.approx, h.exact, h.status⟩
+
+theorem loop_inv (cfg : Cfg S D) (starts : Array S) (script : List S) :
+    ∀ st : St S D, StInv cfg starts st → StInv cfg starts (loop cfg st script).1 := by
+  induction script with
+  | nil =>
+    intro st h
+    simp only [loop]
+    split
+    · exact h
+    · next st0 side hp => exact pre_inv cfg starts st st0 side h hp
+  | cons u rest ih =>
+    intro st h
+    simp only [loop]
+    split
+    · exact h
+    · next st0 side hp =>
+      have h0 := pre_inv cfg starts st st0 side h hp
+      split
+      · exact h0
+      · split
+        · exact extend_inv cfg starts st0 side u h0
+        · exact ih _ (extend_inv cfg starts st0 side u h0)
+
+theorem initTree_inv (cfg : Cfg S D) (starts : Array S) :
+    TreeInv (ValidStart cfg starts) (TreeEdge cfg true) (initTree cfg starts).1 := by
+  have hspec := (drainStarts_spec cfg.bounds cfg.valid starts (starts.size + 1) {}).1
+  intro i nd h
+  simp only [initTree, List.getElem?_toArray, List.getElem?_map, Option.map_eq_some_iff] at h
+  obtain ⟨x, hx, rfl⟩ := h
+  obtain ⟨hi, h1, h2, h3, _⟩ := hspec x (List.mem_of_getElem? hx)
+  exact ⟨⟨x.1, hi, h1, h2, h3⟩, rfl⟩
+
+theorem empty_inv (Root : S → Prop) (E : S → S → Prop) : TreeInv Root E (#[] : Array (Node S)) := by
+  intro i nd h
+  simp at h
+
+/-- the state `RRTConnect::solve` ends its loop in satisfies the invariant -/
+theorem solve_loop_inv (cfg : Cfg S D) (starts : Array S) (ptc : Nat) (startTree : Bool) (script : List S) :
+    StInv cfg starts
+      (loop cfg ⟨(initTree cfg starts).1, #[], startTree, (initTree cfg starts).2, ptc, none, cfg.inf, none, .timeout,
+        false, false⟩ script).1 :=
+  loop_inv cfg starts script _
+    ⟨initTree_inv cfg starts, empty_inv _ _, fun i h => by simp at h, fun p h => by simp at h, Or.inl rfl⟩
+
+theorem edge_strict (cfg : Cfg S D) (hni : cfg.addIntermediate = false) (x y : S) (h : Edge cfg x y) :
+    cfg.checkMotion x y = true := by
+  rcases h with h | ⟨h, _⟩
+  · exact h
+  · rw [hni] at h; exact absurd h (by simp)
+
 end OmplModel.RRTConnect
